@@ -132,6 +132,38 @@ func main() {
 		}
 	}
 
+	// systematic: every code point 0..0x17f (and some beyond) substituted for one digit of, and inserted
+	// into, an otherwise valid string - the accepted alphabet is exactly [0-9a-fA-F-]
+	{
+		base := "0123456789abcdefABCDEF0123456789"
+		extra := []rune{0x2010, 0x2212, 0xff10, 0xff21, 0xfffd, 0x10ffff, 0x660, 0x1d7ce}
+		var rs []rune
+		for c := rune(0); c < 0x180; c++ {
+			rs = append(rs, c)
+		}
+		rs = append(rs, extra...)
+		for k, c := range rs {
+			pos := k % 32
+			for variant := 0; variant < 2; variant++ {
+				var s string
+				if variant == 0 {
+					s = base[:pos] + string(c) + base[pos+1:]
+				} else {
+					s = base[:pos] + string(c) + base[pos:]
+				}
+				p, err := gocql.ParseUUID(s)
+				idx := o.Case("parse-alphabet", true, fmt.Sprintf("CParse %s %s", hlib.RuneList(s), hlib.OptBytes(p[:], err == nil)))
+				ok, even := specAccepts(s)
+				if err == nil && !ok {
+					o.Violate(idx, "parse-accepts-invalid", "", fmt.Sprintf("ParseUUID(%q) accepted a string that is not 32 hex digits plus hyphens", s), nil)
+				}
+				if err != nil && ok && even {
+					o.Violate(idx, "parse-rejects-valid", "", fmt.Sprintf("ParseUUID(%q) rejected 32 hex digits with byte-separating hyphens: %v", s, err), nil)
+				}
+			}
+		}
+	}
+
 	// TimeUUIDWith / timestamps
 	for i := 0; i < n; i++ {
 		var t int64
